@@ -1003,6 +1003,13 @@ func (g *Gen) findLoops() {
 			li.stmtPos = stmts[best].Pos()
 		} else {
 			li.ordinal = 100 + li.header.Index // goto-style loop
+			if g.spec != nil {
+				for _, ls := range g.spec.Loops {
+					if ls.Label != "" && ls.Label == li.header.Comment {
+						li.ordinal = ls.Ordinal
+					}
+				}
+			}
 		}
 		if g.spec != nil {
 			li.spec = g.spec.Loops[li.ordinal]
